@@ -735,6 +735,7 @@ def explore(fn, post, assumptions, timeout_s=120, max_paths=400, use_cvc5=False,
         c.solver.set('timeout', int(timeout_s * 1000))
         c.sched_timeout, c.use_cvc5 = timeout_s, use_cvc5
         t0 = time.time()
+        _leak_watch(c, True)
         try:
             out = ('ret', fn())
         except Unsupported as e:
@@ -746,6 +747,8 @@ def explore(fn, post, assumptions, timeout_s=120, max_paths=400, use_cvc5=False,
             continue
         except Exception as e:          # the code under test raised: an outcome like any other
             out = ('exc', e)
+        finally:
+            _leak_watch(c, False)
         leak = None
         if out[0] == 'exc' and isinstance(out[1], (TypeError, AttributeError)) and any(
                 n in str(out[1]) for n in PROXY_NAMES):
@@ -783,6 +786,36 @@ def explore(fn, post, assumptions, timeout_s=120, max_paths=400, use_cvc5=False,
         results.append(PathResult([], None, 'unknown', 0.0, note='path budget exhausted (%d)' % max_paths))
     Ctx.cur = None
     return results
+
+
+_TOOL = 4      # sys.monitoring tool id used for the leak guard
+
+
+def _leak_watch(c, on):
+    """Leak guard: record every TypeError / AttributeError raised while the code under
+    test runs whose text names a proxy class - even if the code swallows it (safe_eval
+    catches TypeError).  Such a path cannot be trusted: verdict 'leak' (inconclusive)."""
+    import sys
+    mon = getattr(sys, 'monitoring', None)
+    if mon is None:
+        return
+    try:
+        if on:
+            def on_raise(code, offset, exc):
+                if isinstance(exc, (TypeError, AttributeError)) and any(n in str(exc) for n in PROXY_NAMES):
+                    if len(c.leaks) < 5:
+                        c.leaks.append('%s: %s' % (type(exc).__name__, exc))
+            try:
+                mon.use_tool_id(_TOOL, 'verif-leak-guard')
+            except ValueError:
+                pass
+            mon.register_callback(_TOOL, mon.events.RAISE, on_raise)
+            mon.set_events(_TOOL, mon.events.RAISE)
+        else:
+            mon.set_events(_TOOL, 0)
+            mon.register_callback(_TOOL, mon.events.RAISE, None)
+    except Exception:
+        pass
 
 
 def _schedule(stack, c, prefix):
